@@ -284,6 +284,7 @@ def plan(ctx):
     specs.append({"kind": "machine", "i": 0, "n": 25 if not ctx.thorough else 300, "steps": 40})
     specs.append({"kind": "cli", "n": 24 if not ctx.thorough else 256, "guard_off": True})
     specs.append({"kind": "fork", "rounds": 6 if not ctx.thorough else 60, "workers": 4, "per": 300})
+    specs.append({"kind": "sizes", "sizes": [0, 1, 15, 16, 17, 4095, 4096, 65535, 65536, 65537, 2**20 - 1, 2**20, 2**20 + 1, 3 * 2**20 + 7] + ([16 * 2**20 + 1, 64 * 2**20] if ctx.thorough else [])})
     return specs
 
 
@@ -298,6 +299,25 @@ def run_shard(ctx, spec):
                 forked(ctx, acc, spec, ivfile)
             elif spec["kind"] == "machine":
                 run_machine(ctx, acc, "machine", make_machine(ctx, acc, ivfile), seed=ctx.seed * 1000 + spec["i"], n=spec["n"], steps=spec["steps"])
+            elif spec["kind"] == "sizes":
+                # firmware sizes across the range, each encrypted twice (library and file route): the published IV has 96 bits and is the one
+                # used, whatever path the size selects inside the KMS
+                d = ctx.tmpdir("sz")
+                kd = setup_keys(d)
+                s_ = Session(kd)
+                seen = {}
+                for size in spec["sizes"]:
+                    if ctx.expired():
+                        break
+                    pt = pbytes(size, size)
+                    for how in ("lib", "main"):
+                        iv = s_.encrypt(pt, f"size {size} ({how})") if how == "lib" else via_files(d, kd, pt, "main")
+                        acc.case(nt_key=("size", size, how), classes=["sizes", f"size>=1MiB:{size >= 2**20}"])
+                        if iv in seen:
+                            raise Violation(f"IV {iv.hex()} published twice ({seen[iv]}, size {size} {how})", "pairwise distinct IVs", bucket="iv-repeat")
+                        seen[iv] = (size, how)
+                        ivfile.write(iv)
+                shutil.rmtree(d, ignore_errors=True)
             else:
                 d = ctx.tmpdir("cli")
                 kd = setup_keys(d)
@@ -355,7 +375,7 @@ def replay(ctx, check, case):
 
 def finalize(ctx, m, ev):
     c = m["counters"]
-    for need in ("storm:reused-object", "storm:fresh-object", "storm:reimport", "machine", "cli-process", "fork:inherited-object", "fork:reimport"):
+    for need in ("storm:reused-object", "storm:fresh-object", "storm:reimport", "machine", "cli-process", "fork:inherited-object", "fork:reimport", "sizes", "size>=1MiB:True"):
         if not c.get(need):
             raise boot.HarnessError(f"interesting class {need} is empty")
     if m["info"].get("ivs_compared_pairwise", 0) < 1000:
